@@ -1,4 +1,5 @@
 import SLE.Driver.Util
+import SLE.Driver.UnifyD
 /-! Oracles for families `pipeline` and `orders` (no model answer: these families are
 oracle-only until the type-checking pipeline is modelled end to end). -/
 namespace SLE.Driver.PipelineD
@@ -72,8 +73,56 @@ def handle (_payload impl : String) : String × String :=
       | none => ["unparsable-impl-answer"]
   ("n/a", verdictOf segs)
 
+open SLE SLE.Unify SLE.Containers in
+/-- Does some class, in some round of the (pinned-behaviour) model, hold three pieces of
+evidence in the region `MergeLaws.Bad` where `merge` is not associative (finding D11)?
+`C02_foldMerge_perm` proves that without such a triple (and without packed evidence) the fold
+of a class is independent of the order. -/
+def badTripleInSomeClass (packedToo : Bool) (nvars : Nat) (js : List (Nat × TE)) : Bool :=
+  let infs := UnifyD.buildInfs js
+  let infOf := fun v => (infs.lookup v).getD []
+  let hasBad := fun (l : List TE) =>
+    let pf := l.filter MergeLaws.PF
+    if !packedToo then pf.any (fun a => pf.any (fun b => pf.any (fun c => MergeLaws.Bad a b c)))
+    else
+      -- a packed encoding with spans swallows an unsized / full-width numeric or bytes word
+      -- that conflicts with another word of the class (finding D18, outside the Lean theorems)
+      let hasPacked := l.any (fun e => match e with | .packed (_ :: _) _ => true | _ => false)
+      let swallowed := fun (e : TE) => match e with
+        | .word w u => (w == none || w == some 256) && (u == .unsignedNumeric || u == .numeric || u == .bytes)
+        | _ => false
+      hasPacked && pf.any (fun b => swallowed b && pf.any (fun c => MergeLaws.nsWord c && MergeLaws.conflicts b c))
+  let rec go (fuel : Nat) (f : Forest) (next : Nat) : Bool :=
+    match fuel with
+    | 0 => false
+    | fuel + 1 =>
+      let (f1, sets) := f.sets setM
+      if sets.any (fun (p : Nat × List TE) => hasBad p.2) then true
+      else match round UnifyD.sortedOrders f1 next 0 with
+        | .ok acc => if acc.progress then go fuel acc.forest acc.next else false
+        | .error _ => false
+  match initForest UnifyD.sortedOrders (List.range nvars) infOf with
+  | .ok f0 => go 40 f0 nvars
+  | .error _ => false
+
 /-- family `orders`: one program under 8 iteration orders -/
-def handleOrders (_payload impl : String) : String × String :=
+def handleOrders (_payload impl0 : String) : String × String :=
+  let (impl, dump) := match impl0.splitOn " @@@ " with
+    | [a, b] => (a, b)
+    | _ => (impl0, "")
+  let attributed : Nat :=
+    match words dump with
+    | nv :: js =>
+      (match nv.toNat? with
+       | some nvars =>
+         let parsed := js.filterMap (fun j => match j.splitOn ">" with
+           | [v, e] => match v.toNat?, Types.parseTE e with
+             | some v, some e => some (v, e) | _, _ => none
+           | _ => none)
+         if badTripleInSomeClass false nvars parsed then 1
+         else if badTripleInSomeClass true nvars parsed then 2 else 0
+       | none => 0)
+    | [] => 0
   let outs := impl.splitOn " ### "
   let segs :=
     (if outs.any (·.startsWith "PANIC") then ["C01-panic"] else []) ++
@@ -81,7 +130,10 @@ def handleOrders (_payload impl : String) : String × String :=
      | [] => []
      | first :: rest =>
        match rest.find? (· ≠ first) with
-       | some other => ["C02-order-dependent:" ++ first.take 160 ++ " <> " ++ other.take 160]
+       | some other =>
+         [(if attributed == 1 then "C02-order-dependent-absorber:"
+           else if attributed == 2 then "C02-order-dependent-packed-absorber:" else "C02-order-dependent:") ++
+            first.take 160 ++ " <> " ++ other.take 160]
        | none => [])
   ("n/a", verdictOf segs)
 
